@@ -22,6 +22,7 @@ import (
 )
 
 func main() {
+	rules.Finalize()
 	if len(os.Args) < 2 {
 		usage()
 	}
